@@ -1114,6 +1114,16 @@ class Key(object):
                     self.compressed = True
                     self._x = int(self.x_hex, 16)
                     self.public_compressed_hex = pub_key
+            if strict:
+                px = int(self.x_hex, 16)
+                if self._y is not None:
+                    on_curve = px < secp256k1_p and 0 <= self._y < secp256k1_p and \
+                        (self._y * self._y - px * px * px - 7) % secp256k1_p == 0
+                else:
+                    ys = (pow(px, 3, secp256k1_p) + 7) % secp256k1_p
+                    on_curve = px < secp256k1_p and pow(mod_sqrt(ys), 2, secp256k1_p) == ys
+                if not on_curve:
+                    raise BKeyError("Invalid public key, point is not on secp256k1 curve")
             self.public_compressed_byte = bytes.fromhex(self.public_compressed_hex)
             if self._public_uncompressed_hex:
                 self._public_uncompressed_byte = bytes.fromhex(self._public_uncompressed_hex)
